@@ -172,6 +172,15 @@ class Similarity(Affine):
                 "Only 2D and 3D Similarity transforms " "are currently supported."
             )
 
+    @property
+    def composes_inplace_with(self):
+        r"""
+        :class:`Similarity` can swallow composition with any other
+        :class:`Similarity` - composing in place with a more general
+        transform would leave a Similarity that no longer is one.
+        """
+        return Similarity
+
 
 class AlignmentSimilarity(HomogFamilyAlignment, Similarity):
     """
